@@ -64,6 +64,8 @@ def manual_signatures(repo):
             tok = t.group(1) if t.group(1) is not None else t.group(2)
             toks.append(tok.strip())
         out[name] = toks
+    if len(out) < 14:
+        raise AnalysisError("the ':potable signature:' lines of docs/reference/potential_forms.rst are not recognised (%d found, 14 confirmed by hand)" % len(out))
     return out
 
 
